@@ -10,6 +10,13 @@ generated classes (`__post_init__` / `execute` log themselves):
   * no more objects were created than there are configurations in the written closure.
 Nothing is demanded about objects the caller cannot reach from the returned value (upstream tasks behind a `task` link,
 lightweight tasks attached as pre-tasks): whether a loader creates / post-initialises those is not fixed by the property.
+
+Correspondence with the Lean model (Drive/Serial.lean, op `loadstate`: `loadStateLog` / `fromStateDictInst` of
+`stateDict v`): the worker emits the graph, the value and what the real loader did — the call log with object creations
+(`Config.__new__` is tapped while the loader runs; `__init__` / `__post_init__` / `execute` log themselves), the parameter
+values every created object holds at the end and the returned value, runtime objects being named by the configuration
+whose definition they were created for (`load_objects` is tapped for its `objects` dictionary).  The comparison
+(`seriallib.norm` / `canon_log`) is event for event per object and up to the order C13 leaves free between objects.
 """
 import json
 import shutil
@@ -23,6 +30,47 @@ from . import serial_worker as sw
 # entry point is debatable; the observation is recorded in the evidence (stat `mr_pretasks_run`) and the monitor is
 # left disabled.
 CHECK_PRETASKS_ON_STATE_LOAD = False
+
+
+class Tap:
+    """while the loader runs: (a) `serial_worker.NewTap`: every runtime object created through `Config.__new__` is appended
+    to the call log as `new`; (b) the `objects` dictionary returned by `load_objects` (definition id -> object) is kept.
+    /repo is not touched: the attributes are replaced in this process and put back."""
+
+    def __enter__(self):
+        from experimaestro.core.objects import ConfigInformation
+        self.objects = None
+        self.CI = ConfigInformation
+        self.orig_load = ConfigInformation.__dict__["load_objects"]
+        load_fn = ConfigInformation.load_objects
+
+        def tapped_load(*a, **kw):
+            res = load_fn(*a, **kw)
+            self.objects = res
+            return res
+        ConfigInformation.load_objects = staticmethod(tapped_load)
+        self.newtap = sw.NewTap().__enter__()
+        return self
+
+    def __exit__(self, *exc):
+        self.newtap.__exit__(*exc)
+        self.CI.load_objects = self.orig_load
+        return False
+
+
+def model_lines(rec, mod, lib, canon, objs, index, val, new, full_log, loaded):
+    """driver lines (library, graph, `loadstate` of the value) and the implementation's canonicalised outcome"""
+    inst_index = {id(o): index[k] for k, o in loaded.items() if k in index}
+    rec["lines"].append(sw.lib_line(mod, lib, canon))
+    rec["impl"].append({"ok": True})
+    rec["lines"].append({"op": "graph", "nodes": [sw.node_json(o, index, canon) for o in objs]})
+    rec["impl"].append({"ok": True})
+    rec["lines"].append({"op": "loadstate", "v": sw.model_val(val, index, canon)})
+    attrs = []
+    for k, o in loaded.items():
+        names = [n for n in o.__xpmtype__.arguments if n in vars(o)]
+        attrs.append([inst_index.get(id(o), -1), [[sw.hx(n), sw.model_val(vars(o)[n], inst_index, canon)] for n in names]])
+    rec["impl"].append({"log": sw.events_json(full_log, inst_index), "attrs": attrs, "data": sw.model_val(new, inst_index, canon)})
 
 
 def value_paths(val):
@@ -67,6 +115,7 @@ def run_c13m(mod, lib, case, root, canon, datadir):
 
     g = sw.localise(case["graph"], datadir)
     objs = cfgbuild.build_graph(mod, g)
+    index = {id(o): i for i, o in enumerate(objs)}
     val = cfgbuild.real_val(mod, case["value"], {i: o for i, o in enumerate(objs)})
     route = case["route"]
     label = {"state": "state_dict -> from_state_dict(as_instance=True)", "save": "save -> load(as_instance=True)"}[route]
@@ -96,14 +145,19 @@ def run_c13m(mod, lib, case, root, canon, datadir):
             return rec
         xvlog.LOG.clear()
         try:
-            new = serialization.from_state_dict(st, Path("/"), as_instance=True) if route == "state" else serialization.load(sd, as_instance=True)
+            with Tap() as tap:
+                new = serialization.from_state_dict(st, Path("/"), as_instance=True) if route == "state" else serialization.load(sd, as_instance=True)
         except (Exception, RecursionError) as e:
             mon("stateload:load-raises:" + sw.err_kind(e), f"{label}: loading raised {type(e).__name__}: {str(e)[:200]}")
             return rec
-        log = list(xvlog.LOG)
+        full_log = list(xvlog.LOG)
+        log = [e for e in full_log if e[0] != "new"]      # the monitors below state the property on the calls the classes receive
     finally:
         if sd is not None:
             shutil.rmtree(sd, ignore_errors=True)
+
+    # --- what the model is asked (op `loadstate`) and what the real loader did, runtime objects named by their configuration
+    model_lines(rec, mod, lib, canon, objs, index, val, new, full_log, tap.objects or {})
 
     # --- input features (evidence)
     paths, cfgs = value_paths(val)
